@@ -100,6 +100,7 @@ def run(tier, seed):
     cov["states"] += sr.distinct
     cov["transitions"] += sr.generated
     cov["is_sparse_expressions_compared"] = sn
+    cov["traces_validated_against_impl"] += sn   # each comparison runs the real extract_context
     cov["is_sparse_deviations"] = len(sv)
     cov["structure_witness_kernels"] = n_witness
     return {"violations": vio, "coverage": cov, "assumptions": _pipe.ASSUMPTIONS}
